@@ -1,7 +1,7 @@
 """C30 linter rejects documented unsafe schema evolutions (engine E)."""
 import copy
 
-from .. import core, linter
+from .. import core, linter, schemagen
 
 
 def run(ctx):
@@ -19,6 +19,11 @@ def run(ctx):
         if not res:
             continue
         pairs.append((s.text(), s2.text()))
+        meta.append(res)
+    # fixed family: mutual recursion through templates that forward one external mask (names, bits, declaration order vary)
+    for i in range(120 if thorough else 24):
+        s, s2, res = linter.recursion_family(r)
+        pairs.append((schemagen.PRELUDE + "\n" + "\n".join(d.text() for d in s.decls) + "\n", schemagen.PRELUDE + "\n" + "\n".join(d.text() for d in s2.decls) + "\n"))
         meta.append(res)
     verdicts = linter.run_linter(ctx, pairs)
     rej = 0
@@ -41,7 +46,8 @@ def run(ctx):
     ctx.cov["rule"] = ("pairs (old SchemaGen schema, new = old after exactly one unsafe edit applied on the AST at a recorded position class): remove a constructor / function / "
                        "field (last or middle) / template argument (with all uses updated), change a primitive type (top-level field, inside '[...]' repetitions, in a type "
                        "argument, in a non-first type argument, at depth >= 2, in a function argument or result), change the mask bit or the mask reference, add or remove a "
-                       "mask, append an unmasked field, append a field reusing a mask bit, turn a struct that is referenced bare into a union. The real "
+                       "mask, append an unmasked field, append a field reusing a mask bit (also a bit that the other type of a mutually recursive, mask-forwarding pair of templates uses), move a mask or size reference "
+                       "between a template argument and a field, turn a struct that is referenced bare into a union. The real "
                        "CheckBackwardCompatibility(new, old) must reject (a panic is a failure to reject). Evidence carries the (edit kind x position class) matrix. "
                        "distinct_nontrivial = distinct (edit kind, position class).")
     ctx.require("pairs", len(pairs), n * 8 // 10)
